@@ -42,18 +42,18 @@ func New(p *load.Program, cg *callgraph.Graph, scope map[*ssa.Function]bool) *An
 
 // intrinsic sources: resolved callee -> tainted result index
 var sourceCalls = map[string]int{
-	"(*cbor.Decoder).decodeTypedUint":    1,
-	"cbor.getUnsignedIntegerValue":       0,
-	"(binary.bigEndian).Uint16":          0,
-	"(binary.bigEndian).Uint32":          0,
-	"(binary.bigEndian).Uint64":          0,
-	"(binary.littleEndian).Uint16":       0,
-	"(binary.littleEndian).Uint32":       0,
-	"(binary.littleEndian).Uint64":       0,
-	"bigendian.Decode3BytesUint":         0,
-	"invoke:binary.ByteOrder.Uint16":     0,
-	"invoke:binary.ByteOrder.Uint32":     0,
-	"invoke:binary.ByteOrder.Uint64":     0,
+	"(*cbor.Decoder).decodeTypedUint": 1,
+	"cbor.getUnsignedIntegerValue":    0,
+	"(binary.bigEndian).Uint16":       0,
+	"(binary.bigEndian).Uint32":       0,
+	"(binary.bigEndian).Uint64":       0,
+	"(binary.littleEndian).Uint16":    0,
+	"(binary.littleEndian).Uint32":    0,
+	"(binary.littleEndian).Uint64":    0,
+	"bigendian.Decode3BytesUint":      0,
+	"invoke:binary.ByteOrder.Uint16":  0,
+	"invoke:binary.ByteOrder.Uint32":  0,
+	"invoke:binary.ByteOrder.Uint64":  0,
 }
 
 func isInteger(t types.Type) bool {
@@ -885,7 +885,9 @@ func (a *Analysis) Obligations(in map[*ssa.Function]bool, skipBounds func(*ssa.F
 	return out
 }
 
-func shortT(t types.Type) string { return types.TypeString(t, func(*types.Package) string { return "" }) }
+func shortT(t types.Type) string {
+	return types.TypeString(t, func(*types.Package) string { return "" })
+}
 
 func (a *Analysis) decideAlloc(o *Obl, ub Bound, fn *ssa.Function) {
 	switch ub.Kind {
@@ -1477,7 +1479,7 @@ func (a *Analysis) checkArith(fn *ssa.Function, b *ssa.BasicBlock, x *ssa.BinOp,
 		if _, ok := lenOf(x.X); ok && yb.Kind == LenB {
 			// len(s) - y with y <= len(s)
 			if s, _ := lenOf(x.X); prov.Of(s) == yb.S && yb.C == 0 {
-				o.OK, o.How = true, "subtrahend " + yb.String()
+				o.OK, o.How = true, "subtrahend "+yb.String()
 				return
 			}
 		}
